@@ -1,5 +1,6 @@
 import AkVerif.Model.Murmur
 import AkVerif.Model.Assign
+import AkVerif.Model.Iso
 import AkVerif.Model.Sticky
 import AkVerif.Model.StickyAlg
 import Driver.WireIO
@@ -18,6 +19,7 @@ def dispatch (toks : List String) : Option String :=
   | "c14" :: rest => Assign.handle rest
   | "c15" :: rest => Sticky.handle rest
   | "sticky" :: rest => StickyAlg.handle rest
+  | "c08" :: rest => Iso.handle rest
   | "c11" :: rest => WireIO.handle rest
   | "c12" :: rest => ConnIO.handle rest
   | "c18" :: rest => ScramIO.handle rest
